@@ -119,12 +119,13 @@ def run(pid, tier, seed, replay=None):
         if hasattr(mod, 'regenerate'):
             mod.regenerate(ctx)
         # 2. prove
-        vlib.build_model()
-        ctx.props = vlib.check_props(pid)
+        ctx.phase = {}
+        t = time.time(); vlib.build_model(); ctx.phase['build_model_s'] = round(time.time() - t, 1)
+        t = time.time(); ctx.props = vlib.check_props(pid); ctx.phase['check_props_s'] = round(time.time() - t, 1)
         obligations = ctx.props['obligations']
         props_ok = ctx.props['ok']
         # 3. build
-        ctx.impl = vlib.build_impl()
+        t = time.time(); ctx.impl = vlib.build_impl(); ctx.phase['build_impl_s'] = round(time.time() - t, 1)
     except RuntimeError as e:
         msg = str(e)
         print(msg[-3000:])
@@ -147,7 +148,9 @@ def run(pid, tier, seed, replay=None):
         allcases += list(mod.cases(ctx, tier))
     lines = [c[0] for c in allcases]
     tags = [c[1] for c in allcases]
+    t = time.time()
     bad, impl_out, model_out = diff_cases(ctx, allcases, timeout=getattr(mod, 'TIMEOUT', 900)) if lines else ([], [], [])
+    ctx.phase['correspond_s'] = round(time.time() - t, 1)
     hist = {}
     for t in tags:
         hist[t] = hist.get(t, 0) + 1
@@ -155,7 +158,7 @@ def run(pid, tier, seed, replay=None):
     # 4b. property-specific extra steps (own harnesses, traces, translators' cross-checks)
     if hasattr(mod, 'extra') and not replay:
         try:
-            mod.extra(ctx)
+            t = time.time(); mod.extra(ctx); ctx.phase['extra_s'] = round(time.time() - t, 1)
         except RuntimeError as e:
             print(str(e)[-3000:])
             print("CHECK-ERROR property=%s (extra step failed, no verdict)" % pid)
@@ -256,6 +259,7 @@ def run(pid, tier, seed, replay=None):
            'disagreements': len(bad), 'known_findings_hit': len(ctx.known_hits),
            'explanation': getattr(mod, 'EXPLANATION', ''), 'notes': ctx.notes[:20]}
     cov.update(ctx.extra_cov)
+    cov["phase_seconds"] = getattr(ctx, "phase", {})
     vlib.write_evidence(pid, tier, seed, cov, ctx.elapsed(), len(ctx.violations), getattr(mod, 'ASSUMPTIONS', []))
     print("%s tier=%s seed=%d obligations=%d/%d cases=%d disagreements=%d known=%d violations=%d wall=%.1fs" % (
         pid, tier, seed, cov['discharged'], cov['obligations'], len(lines), len(bad), len(ctx.known_hits), len(ctx.violations), ctx.elapsed()))
